@@ -4,7 +4,7 @@ import vlib
 
 LEVEL = "model_checking"
 
-IV_INV = ["S1Unary", "S1Binary", "PPLaws", "R1Unary", "R1Binary", "R2Unary", "R2Binary", "RcUnary", "RcBinary", "Emit"]
+IV_INV = ["XTLaws", "S1Unary", "S1Binary", "PPLaws", "R1Unary", "R1Binary", "R2Unary", "R2Binary", "RcUnary", "RcBinary", "Emit"]
 CAP_INV = ["CapUnary", "CapBinary", "ChordLaws", "Emit"]
 
 
@@ -33,11 +33,11 @@ def run(ctx):
         "s2.Rect has no InteriorContains/InteriorIntersects in this tree; Cap.Expanded requires a non-negative distance",
     ]
     # ---- 1. circle, line, planar rectangles: exhaustive over all operands and pairs
-    consts = {"M": 4, "NL": 3, "ML": 2, "NR": 1, "Fams": '{"s1", "pp", "r1", "r2"}',
-              "AIdxS1": set(), "AIdxRc": {1}, "BIdxRc": set(), "RcMlK": _k([0]), "RcMgK": _k([0])}
+    consts = {"M": 4, "NL": 3, "ML": 2, "NR": 1, "Fams": '{"s1", "pp", "r1", "r2", "xt"}',
+              "AIdxS1": set(), "AIdxRc": {1}, "BIdxRc": set(), "XtSeed": ctx.seed % 1000000, "RcMlK": _k([0]), "RcMgK": _k([0])}
     r = ctx.tlc("Gen_Intervals", vlib.cfg(constants=consts, invariants=IV_INV), workers=8, timeout=900)
     cases = _cases(r)
-    if len(cases) != 66 + 66 * 66 + 81 + 49 + 49 * 49 + 45 + 45 * 45:
+    if len(cases) != 66 + 66 * 66 + 81 + 49 + 49 * 49 + 45 + 45 * 45 + 64 * 21:
         raise vlib.Infra("unexpected number of interval cases: %d" % len(cases))
     ctx.replay(cases)
     ctx.exhaustive = {"s1.Interval": "M=4: all 66 intervals, all 4356 ordered pairs, 16 probes, margins -8..8 steps",
@@ -49,7 +49,7 @@ def run(ctx):
     consts = {"M": 4, "NL": 3, "ML": 2, "NR": 1, "Fams": '{"rc"}',
               "AIdxS1": set(), "AIdxRc": set(rnd.sample(range(1, n_rc + 1), na)) | {1, n_rc},
               "BIdxRc": (set(rnd.sample(range(1, n_rc + 1), 450)) | {1, n_rc}) if q else set(),
-              "RcMlK": _k([-2, -1, 0, 1, 2] if not q else [-1, 0, 1, 2]),
+              "XtSeed": ctx.seed % 1000000, "RcMlK": _k([-2, -1, 0, 1, 2] if not q else [-1, 0, 1, 2]),
               "RcMgK": _k([-4, -2, -1, 0, 1, 2, 4] if not q else [-2, -1, 0, 1, 4])}
     r = ctx.tlc("Gen_Intervals", vlib.cfg(constants=consts, invariants=IV_INV), workers=12, timeout=1500, heap="8g")
     ctx.replay(_cases(r))
@@ -64,9 +64,9 @@ def run(ctx):
     ctx.replay(_cases(r), timeout=1800)
     if not q:
         # M = 8 circle (258 intervals): seeded first operands x all second operands; finer line
-        consts = {"M": 8, "NL": 4, "ML": 4, "NR": 1, "Fams": '{"s1", "pp", "r1"}',
+        consts = {"M": 8, "NL": 4, "ML": 4, "NR": 1, "Fams": '{"s1", "pp", "r1", "xt"}',
                   "AIdxS1": set(rnd.sample(range(1, 259), 60)), "AIdxRc": {1}, "BIdxRc": set(),
-                  "RcMlK": _k([0]), "RcMgK": _k([0])}
+                  "XtSeed": ctx.seed % 1000000, "RcMlK": _k([0]), "RcMgK": _k([0])}
         r = ctx.tlc("Gen_Intervals", vlib.cfg(constants=consts, invariants=IV_INV), workers=14, timeout=2400, heap="8g")
         ctx.replay(_cases(r), timeout=1800)
         # finer lat-lng grid, sampled on both sides
@@ -74,6 +74,6 @@ def run(ctx):
         consts = {"M": 8, "NL": 3, "ML": 4, "NR": 1, "Fams": '{"rc"}', "AIdxS1": set(),
                   "AIdxRc": set(rnd.sample(range(1, n_rc + 1), 20)) | {1, n_rc},
                   "BIdxRc": set(rnd.sample(range(1, n_rc + 1), 300)) | {1, n_rc},
-                  "RcMlK": _k([-3, -1, 0, 1, 4]), "RcMgK": _k([-8, -3, -1, 0, 1, 3, 8])}
+                  "XtSeed": ctx.seed % 1000000, "RcMlK": _k([-3, -1, 0, 1, 4]), "RcMgK": _k([-8, -3, -1, 0, 1, 3, 8])}
         r = ctx.tlc("Gen_Intervals", vlib.cfg(constants=consts, invariants=IV_INV), workers=14, timeout=2400, heap="8g")
         ctx.replay(_cases(r), timeout=1800)
